@@ -199,8 +199,10 @@ def handle (op : String) (args : List String) (impl : String) : Option Verdict :
     let m := if !dstOk then "none" else match relay inp with
       | .errSrc | .panicSrc => "none"
       | o => showOut o
-    let ok := match (if impl = "none" then some Out.errSrc else parseOut impl) with
-      | some x => !dstOk || decide (P01 inp x)
+    -- a deposit addressed to another destination than the retry names must NOT be forwarded
+    let ok := if !dstOk then impl == "none" else
+      match (if impl = "none" then some Out.errSrc else parseOut impl) with
+      | some x => decide (P01 inp x)
       | none => false
     return ⟨m, ok, s!"retrymsg:{chain}:{sk}>{dk}:{if (expected inp).isSome then "wf" else "nwf"}:{if m = "none" then "none" else outClass (relay inp)}"⟩
   | "e2e", [sk, dk, s, d, nonce, rid, a1, a2] => some <| Id.run do
